@@ -69,7 +69,18 @@ class JsonParser(object):
         json_elements = json_feature.get("elements", [])
         for json_element in json_elements:
             self.add_feature_element(feature, json_element)
+        self.restore_status(feature, json_feature)
         return feature
+
+    @staticmethod
+    def restore_status(model_element, json_element):
+        """Restore the status of a feature/scenario as stored in the report.
+        Otherwise, the status is recomputed from the steps and, for example,
+        skipped or hook_error elements are reported as untested/passed.
+        """
+        status_name = json_element.get("status", None)
+        if status_name:
+            model_element.set_status(status_name)
 
 
     def add_feature_element(self, feature, json_element):
@@ -129,6 +140,7 @@ class JsonParser(object):
         filename, line = location.split(":")
         scenario = model.Scenario(filename, line, keyword, name, tags, steps)
         scenario.description = description
+        self.restore_status(scenario, json_element)
         return scenario
 
     def parse_scenario_outline(self, json_element):
